@@ -218,6 +218,19 @@ func init() {
 		x.funcsUsed["lib:go-digest NewDigest(alg, h) is digestOf(alg, bytes written to h), the same function FromBytes computes for sha256"] = true
 		return x.digestOf(st, a[0].T, Select(gh, ref), cc.Signature().Results().At(0).Type()), true
 	}
+	// base64 decoding: an unspecified function of the encoding used and the text
+	libTable["(*encoding/base64.Encoding).DecodeString"] = func(x *Exec, fr *Frame, st *State, cc *ssa.CallCommon, a []Val) (Val, bool) {
+		if x.te.StrSort != "String" || x.te.ByteBV {
+			return Val{}, false
+		}
+		T := cc.Signature().Results().At(0).Type()
+		data := x.freshVal(st, "b64", T)
+		e := x.freshVal(st, "b64_err", errT)
+		x.d.DeclareFun("b64dec", "(declare-fun b64dec (Int String) String)")
+		st.assume(Implies(Eq(e.T, NilIface), Eq(x.bytesToString(st, data.T), mk("String", "b64dec", a[0].T, a[1].T))))
+		x.funcsUsed["lib:base64 Encoding.DecodeString (on success the bytes are b64dec(encoding, text), an unspecified deterministic function)"] = true
+		return Val{Tup: []Val{data, e}}, true
+	}
 	libTable["crypto/rand.Read"] = func(x *Exec, fr *Frame, st *State, cc *ssa.CallCommon, a []Val) (Val, bool) {
 		x.te.SortOf(cc.Args[0].Type())
 		x.funcsUsed["lib:crypto/rand.Read never fails (documented: it never returns an error on supported platforms)"] = true
